@@ -4,7 +4,7 @@
 #  - the demonstration fails with the patch and passes without it.
 # Then copy patch.diff / demo.rs / meta.json to /verif/seeded/<id>/.
 set -u
-id=$1; src=${2:-/tmp/seed_$id}; wt=/tmp/wt_$id
+id=$1; src=${2:-/tmp/seed_$id}; wt=${3:-/tmp/wt_$id}
 export CARGO_TARGET_DIR=$wt/target CARGO_NET_OFFLINE=true
 cd $wt || exit 2
 git diff > /tmp/verify_$id.diff
